@@ -137,7 +137,7 @@ def shard(binpath, seed, sh, n):
         desc = action
         if action == "content":
             edits = list(scen.single_edits(wire["signed"], rng, None))
-            special = [e for e in edits if e[0].startswith(("respell@", "match_prefix@", "respell_key@", "tagged_spelling@", "add_member@"))]
+            special = [e for e in edits if e[0].startswith(("respell@", "match_prefix@", "respell_key@", "tagged_spelling@", "add_member@", "insert_empty@"))]
             mp = [e for e in edits if e[0].startswith("match_prefix@")]
             if sc.get("tolerant_match") and mp:
                 content_edit, newdoc = rng.choice(mp)
